@@ -7,7 +7,7 @@ Everything runs in a scratch worktree of /repo (removed afterwards); /repo itsel
 import json, os, shutil, subprocess, sys, time, glob
 pid, n = sys.argv[1], sys.argv[2]
 props = [pid]
-skip_suite = "--skip-suite" in sys.argv
+skip_suite = "--skip-suite" in sys.argv or "--demo-only" in sys.argv
 if "--props" in sys.argv:
     props = sys.argv[sys.argv.index("--props") + 1].split(",")
 src = "/tmp/mut/out-%s/%s" % (pid, n)
@@ -21,6 +21,9 @@ os.makedirs(os.path.dirname(wt), exist_ok=True)
 sh("git -C /repo worktree remove --force %s" % wt)
 rc, out = sh("git -C /repo worktree add --detach %s main" % wt)
 meta = {"property": pid, "n": int(n), "source": "fresh sub-agent given only the property text and its own worktree", "ran": []}
+old_meta = {}
+if "--demo-only" in sys.argv and os.path.exists(dst + "/meta.json"):
+    old_meta = json.load(open(dst + "/meta.json"))
 def note(k, v):
     meta[k] = v
     print(k, "=", str(v)[:300], flush=True)
@@ -48,7 +51,7 @@ try:
     note("demo_with_change_fails", rc1 != 0)
     meta["ran"].append("go test -run '%s' . (with change): rc=%d" % (runpat, rc1))
     # without the change
-    sh("git diff > /root/scratch/seed/%s-%s.saved.diff && git checkout -- ." % (pid, n), cwd=wt)  # never git stash: it is shared by all worktrees
+    sh("git diff HEAD > /root/scratch/seed/%s-%s.saved.diff && git checkout HEAD -- ." % (pid, n), cwd=wt)  # never git stash: it is shared by all worktrees
     for f in demo_tests:
         shutil.copy(f, wt)
     rc2, out2 = sh("go test -vet=off -count=1 -timeout 10m -run '%s' ." % runpat, cwd=wt, timeout=900)
@@ -84,6 +87,11 @@ try:
                 pass
     note("checks", res)
     meta["caught_by"] = [p for p in res if res[p]["exit"] == 1]
+    if old_meta:
+        for k in ("suite_passes_with_change", "checks", "caught_by"):
+            if k in old_meta and (k not in meta or not meta[k]):
+                meta[k] = old_meta[k]
+        meta["ran"] += [r for r in old_meta.get("ran", []) if "unshare" in r]
 finally:
     os.makedirs(dst, exist_ok=True)
     for f in glob.glob(src + "/*"):
